@@ -155,6 +155,38 @@ def _check_tuple(case):
     return None
 
 
+def _optrule_cases(tier, seed):
+    rules = [f'{p}:{pat}' for pat in ('pkg.mod.*', '**._*', 'pkg.mod.C', 'pkg.**') for p in ('PUBLIC', 'hidden', 'Private')]
+    for r in rules[:4]:
+        yield {'argv': [r]}
+    for a, b in itertools.product(rules[:6], repeat=2):
+        yield {'argv': [a, b]}
+    rnd = random.Random(seed + 9)
+    for _ in range(60 if tier == 'quick' else 600):
+        n = rnd.randint(3, 5)
+        base = [rnd.choice(rules) for _ in range(n)]
+        if rnd.random() < 0.6:
+            base.append(base[0])          # the same rule given again later (config file + command line)
+        yield {'argv': base}
+
+
+def _check_optrules(case):
+    """--privacy options reach the system as the same rules in the same order (the precedence depends on it)"""
+    from pydoctor import options, model
+    import io, contextlib
+    argv = [f'--privacy={r}' for r in case['argv']]
+    with contextlib.redirect_stdout(io.StringIO()), contextlib.redirect_stderr(io.StringIO()):
+        try:
+            o = options.Options.from_args(argv)
+        except SystemExit as ex:
+            return {'observed': f'SystemExit({ex.code}) for {argv}', 'required': 'accepted'}
+    want = [(model.PrivacyClass[r.split(':')[0].strip().upper()], r.split(':')[1].strip()) for r in case['argv']]
+    if list(o.privacy) != want:
+        return {'observed': f'options.privacy = {[(p.name, m) for p, m in o.privacy]}',
+                'required': f'{[(p.name, m) for p, m in want]}: every rule, in the order given', 'class': 'option-order'}
+    return None
+
+
 HARNESS = {
     f'{Q}:translate': {'cases': _translate_cases, 'check': _check_translate,
         'bound': 'all patterns of length <= 4 (5) over 9 characters + 500 (5000) random longer ones'},
@@ -164,5 +196,7 @@ HARNESS = {
         'covers': [f'{M}:Documentable.privacyClass', f'{M}:Module.privacyClass', f'{M}:Documentable.isVisible',
                    f'{M}:Documentable.isPrivate'],
         'bound': 'every object of a 4-module fixture x all single rules (13 patterns x 3 levels) + 150 (2000 + all pairs) rule lists; each queried twice (cache)'},
+    'pydoctor/options.py:_convert_privacy': {'cases': _optrule_cases, 'check': _check_optrules,
+        'bound': 'all pairs of 6 rules, 4 single rules, 60 (600) random lists of 3..6 rules with repetitions, through Options.from_args'},
     'pydoctor/utils.py:parse_privacy_tuple': {'cases': _tuple_cases, 'check': _check_tuple, 'bound': '12 hand-picked option values'},
 }
